@@ -268,8 +268,10 @@ var _ = reserr.ErrAccessDenied
 //@   requires s != nil && w != nil && r != nil
 //@   assumes len(s.cfg.allowOrigin) > 0 && w.Header() != r.Header
 //@   assigns elemsof(http.Header)
-//@   ensures[C17] (result != nil) == (old(s.cfg.allowOrigin[0]) != "*" && old(len(r.Header["Origin"])) > 0 && old(r.Header["Origin"][0]) != "null" &&
-//@       !(exists j int :: 0 <= j && j < len(old(s.cfg.allowOrigin)) && predOriginEq(old(s.cfg.allowOrigin)[j], old(r.Header["Origin"][0]))))
+//@   ensures[C17] result != nil ==> old(s.cfg.allowOrigin[0]) != "*" && old(len(r.Header["Origin"])) > 0 && old(r.Header["Origin"][0]) != "null" &&
+//@       (forall j int :: 0 <= j && j < len(old(s.cfg.allowOrigin)) ==> !predOriginEq(old(s.cfg.allowOrigin)[j], old(r.Header["Origin"][0])))
+//@   ensures[C17] result == nil ==> old(s.cfg.allowOrigin[0]) == "*" || old(len(r.Header["Origin"])) == 0 || old(r.Header["Origin"][0]) == "null" ||
+//@       (exists j int :: 0 <= j && j < len(old(s.cfg.allowOrigin)) && predOriginEq(old(s.cfg.allowOrigin)[j], old(r.Header["Origin"][0])))
 //@   ensures[C17] result != nil ==> result == reserr.ErrForbiddenOrigin
 //@   safety[C15]
 
